@@ -44,3 +44,17 @@ macro_rules! lr_verdict {
         $( assert!(e & $bit == 0, concat!($pid, ": [replayable] ", $msg)); )*
     }};
 }
+
+/// Results that may hold an io::Error are never dropped or formatted in a
+/// harness (io::Error's drop glue and Debug blow CBMC up, DESIGN §2.6).
+pub fn ok<T>(r: Result<T, std::io::Error>) -> Option<T> {
+    match r {
+        Ok(x) => Some(x),
+        Err(e) => {
+            core::mem::forget(e);
+            None
+        }
+    }
+}
+
+pub fn noop_mut<T>(_: &mut T) {}
